@@ -168,7 +168,50 @@ func runC06(c *fw.Ctx) {
 				res.Count("generator-rejected")
 				return false
 			}
-			hist = append(hist, c06Record{block: p.Block, supp: p.Supp, preDump: pre, postDump: s.St.Dump(true), state: chain.Encode(s.Tip), diffs: dumpDiffs(au), corner: classifyFCDiffs(au), modelReq: req})
+			rec := c06Record{block: p.Block, supp: p.Supp, preDump: pre, postDump: s.St.Dump(true), state: chain.Encode(s.Tip), diffs: dumpDiffs(au), corner: classifyFCDiffs(au), modelReq: req}
+			hist = append(hist, rec)
+			// every block that revises or resolves a contract (and every third other block) is reverted right away and
+			// applied again: the random schedule below reverts only tip blocks, so without this most blocks with the
+			// delicate diff shapes (revised twice, revised and resolved) would never be reverted at all
+			touches := len(au.FileContractElementDiffs())+len(au.V2FileContractElementDiffs()) > 0
+			if touches || len(hist)%3 == 0 {
+				res.Count("immediate-revert")
+				rp := map[string]any{"mode": mode, "seed": seed, "height": s.Height(), "schedule_step": "immediate", "corner": rec.corner}
+				tipBefore := s.Tip
+				ru := s.RevertTip()
+				if c.Model != nil && rec.modelReq != "" {
+					ops = append(ops, "ledger-revert "+rec.modelReq)
+					outs = append(outs, "ok "+ab.DumpRevert(ru, tipBefore, s.Tip))
+					res.Count("model:ledger-revert")
+				}
+				res.Eval(fmt.Sprintf("%s/%d/imm/%d", mode, seed, len(hist)), true)
+				rd := dumpDiffs(ru)
+				if !eqStrs(rd.sc, reversed(rec.diffs.sc)) || !eqStrs(rd.sf, reversed(rec.diffs.sf)) || !eqStrs(rd.fc, reversed(rec.diffs.fc)) || !eqStrs(rd.v2, reversed(rec.diffs.v2)) {
+					res.Violate(fw.Violation{Key: "c06-revert-diffs-differ:" + rec.corner, What: "RevertUpdate does not report the apply's diffs in reverse order", Replay: rp})
+				}
+				if got := s.St.Dump(false); !eqStrs(got, rec.preDump) {
+					res.Violate(fw.Violation{Key: "c06-store-not-restored:" + rec.corner, What: "store after revert differs from store before apply", Replay: rp, Observed: firstDiff(rec.preDump, got)})
+				}
+				if bad := s.St.VerifyAgainst(s.Tip); bad != "" {
+					res.Violate(fw.Violation{Key: "c06-restored-element-unverifiable:" + rec.corner, What: "after revert an element of the earlier store does not verify against the parent state: " + bad, Replay: rp})
+				}
+				var au2 consensus.ApplyUpdate
+				var err2 error
+				panicked, msg := fw.Recover(func() { au2, err2 = s.Apply(rec.block, rec.supp) })
+				if panicked || err2 != nil {
+					res.Violate(fw.Violation{Key: "c06-reapply-rejected:" + rec.corner, What: fmt.Sprintf("re-applying a reverted block failed: %v %v", msg, err2), Replay: rp})
+					return false
+				}
+				if d := dumpDiffs(au2); !eqStrs(d.sc, rec.diffs.sc) || !eqStrs(d.sf, rec.diffs.sf) || !eqStrs(d.fc, rec.diffs.fc) || !eqStrs(d.v2, rec.diffs.v2) {
+					res.Violate(fw.Violation{Key: "c06-reapply-diffs-differ:" + rec.corner, What: "diffs after re-apply differ from the first apply", Replay: rp})
+				}
+				if !bytes.Equal(chain.Encode(s.Tip), rec.state) {
+					res.Violate(fw.Violation{Key: "c06-reapply-state-differs:" + rec.corner, What: "state after re-apply is not byte-identical to the first apply", Replay: rp})
+				}
+				if got := s.St.Dump(true); !eqStrs(got, rec.postDump) {
+					res.Violate(fw.Violation{Key: "c06-reapply-store-differs:" + rec.corner, What: "store (with proofs) after re-apply differs from the first apply", Replay: rp, Observed: firstDiff(rec.postDump, got)})
+				}
+			}
 			return true
 		}
 		ok := true
